@@ -11,9 +11,8 @@ The property oracles below recompute everything from the raw call log with
 their own arithmetic (they do not use the model).
 """
 import itertools
-import math
+import json
 import os
-import pickle
 import shutil
 import tempfile
 from fractions import Fraction
@@ -24,22 +23,34 @@ MODULE = 'PyPhysim.Properties.C05'
 DRIVER = 'drv_c05'
 
 CLAIM = {
-    'technique': 'Lean 4 induction over outcome streams and variation lists (loop invariant, mixed-radix '
-                 'indexing) + exact call-log correspondence with a scripted runner',
-    'text': 'For every merge operation, repetition limit, _keep_going predicate (function of merged results, skip '
-            'counter, repetition index, variation), loaded start state and outcome stream the model of the '
-            'repetition loop consumes the minimal prefix that falsifies the guard, stores the left fold of exactly '
-            'the successful outcomes, counts them and never counts a skip; simulate() visits the variations in '
-            'index order, result/runned_reps entry i belongs to combination i, a single-index simulate touches '
-            'only that variation, a repeated simulate() starts from cleared results; combination i carries the '
-            'mixed-radix digits of i over the sorted names (last fastest), their number is the product of the '
-            'lengths, and get_pack_indexes / get_result_values_list return exactly the matching combinations for '
-            'duplicate-free value lists. All kernel-checked for unbounded sizes; the model is tied to the code by '
-            'exact comparison of call logs, runned_reps, stored statistics, partial files and lookups.',
-    'note': 'Trusted: the hand model <-> code correspondence (seeded + exhaustive small scopes), numpy '
-            'reshape/indexing modelled as row-major index arithmetic, pickle round trip of partial results. '
-            'Not modelled: progress bars, ipyparallel path, periodic (500 reps / 300 s) saving (C07). '
-            'Known finding: duplicate values in an unpacked parameter are matched only at their first position.',
+    'technique': 'Lean 4 induction over outcome streams and variation lists (loop invariant against a fold '
+                 'specification, mixed-radix indexing, numpy slice = filter on digits) + exact event-log '
+                 'correspondence with a scripted SimulationRunner',
+    'text': 'Kernel-checked for every results type and merge operation (no law assumed), every rep_max, every '
+            '_keep_going predicate of (merged results, skip counter, repetition index, variation), every loaded '
+            'start state, every outcome stream and every runner state: one variation consumes exactly the minimal '
+            'prefix of the stream after which `keep and rep < rep_max` fails, its stored result is the left fold of '
+            'exactly the successful outcomes (merged into the loaded result when resumed), runned_reps is their '
+            'number, a skip is never counted, a skip in the first repetition is retried, rep <= rep_max and the stop '
+            'is by limit or by rule; simulate() splits the stream into one such run per variation 0..n-1 in that '
+            'order, entry i of results / runned_reps / the partial files belongs to variation i, every variation is '
+            'run, simulate(index) runs only that variation, a repeated simulate() without a results file equals a '
+            'run on a new runner, a resumed variation that had reached the limit is not re-run; combination i is '
+            'the one picked by the mixed-radix digits of i over the name-sorted parameters (last fastest), the '
+            'number of variations is the product of the lengths; get_pack_indexes and get_result_values_list return '
+            'exactly the combinations carrying the fixed values, in order (proved for duplicate-free value lists; '
+            'negative witness proved for duplicates). The model is tied to runner.py / parameters.py / results.py '
+            'by exact comparison of call logs, runned_reps, stored statistics, partial files and lookups on seeded '
+            'and exhaustively enumerated small scenarios; independent oracles re-check the property on the real '
+            'code from the raw event log.',
+    'note': 'Trusted beyond the common base: the hand model <-> code correspondence (a behaviour not reached by '
+            'the generators is not tied), numpy reshape/indexing modelled as row-major index arithmetic, pickle '
+            'round trip of partial results, Python str ordering = Lean String ordering. Partial: lookup theorems '
+            'carry the hypothesis that no unpacked parameter lists a value twice (known finding C05:*:duplicate-'
+            'values, negative witness pack_indexes_dup_first); termination is outside the model (a stream that '
+            'runs out = a program that skips for ever, made explicit as exhausted/starved). Not modelled: progress '
+            'bars, ipyparallel path, periodic (500 reps / 300 s) partial saving and crash/resume (C07), '
+            'CHOICETYPE results (np.int defect, C06/C17), result merging internals (C06; the merge is a parameter).',
 }
 
 NAME_POOL = ['a', 'b', 'c', 'aa', 'ab', 'B', 'Z', 'a1', '_x', 'snr', 'SNR', 'M', 'z9']
@@ -689,6 +700,12 @@ def corpus_cases():
     out.append(dict(base, names=['a'], vals={'a': []}, look=[]))
     out.append(dict(base, outs=[1, 2]))
     out.append(dict(base, keep=['skiplt:2'], file=True, ops=['all', 'all'], outs=[1, 's', 's', 1] * 20))
+    d = os.path.join(core.VERIF, 'corpus', 'c05')
+    if os.path.isdir(d):
+        for fn in sorted(os.listdir(d)):
+            if fn.endswith('.json'):
+                with open(os.path.join(d, fn)) as f:
+                    out.append(json.load(f)['case'])
     return out
 
 
@@ -700,19 +717,41 @@ def grid_cases(rng, count):
     return out
 
 
-def exhaustive_cases(max_bits, repmaxes):
-    """every outcome mask of length <= max_bits (padded with successes), small grids, two stop rules"""
+def exhaustive_cases(max_bits, repmaxes, shape_bits=None):
+    """every outcome mask of length <= max_bits (padded with successes) on four grids and three stop
+    rules; with `shape_bits`: additionally every grid shape with 0-3 parameters of lengths 1-3 and every
+    mask of length <= shape_bits"""
     out = []
+
+    def add(names, vals, repmax, keep, bits, file=False, ops=('all',)):
+        for mask in range(1 << bits):
+            outs = ['s' if (mask >> i) & 1 else 1 + (i % 3) for i in range(bits)]
+            nvar = 1
+            for nm in names:
+                nvar *= len(vals[nm])
+            outs += [2] * ((repmax + 1) * nvar * len(ops))
+            out.append(dict(kind='sim', names=names, vals=vals, repmax=repmax, file=file, keep=keep,
+                            ops=list(ops), outs=outs, look=[]))
+
     grids = [([], {}), (['a'], {'a': [1, 2]}), (['b', 'a'], {'a': [1, 2], 'b': [3, 4]}),
              (['a', 'c', 'b'], {'a': [1], 'b': [2, 3], 'c': [4, 5]})]
     for names, vals in grids:
         for repmax in repmaxes:
             for keep in (['always'], ['sumlt:3'], ['skiplt:1', 'always']):
                 for bits in range(max_bits + 1):
-                    for mask in range(1 << bits):
-                        outs = ['s' if (mask >> i) & 1 else 1 + (i % 3) for i in range(bits)] + [2] * (4 * repmax)
-                        out.append(dict(kind='sim', names=names, vals=vals, repmax=repmax, file=False, keep=keep,
-                                        ops=['all'], outs=outs, look=[]))
+                    add(names, vals, repmax, keep, bits)
+    if shape_bits is not None:
+        pool = ['b', 'a', 'C']
+        for k in range(4):
+            for lens in itertools.product((1, 2, 3), repeat=k):
+                names = pool[:k]
+                vals = {nm: list(range(10 * j, 10 * j + ln)) for j, (nm, ln) in enumerate(zip(names, lens))}
+                for repmax in (1, 2, 3):
+                    for keep in (['always'], ['sumlt:4']):
+                        for bits in range(shape_bits + 1):
+                            add(names, vals, repmax, keep, bits)
+                # one resumed history per shape
+                add(names, vals, 2, ['always'], 3, file=True, ops=('all', 'all'))
     return out
 
 
@@ -731,12 +770,16 @@ def check(ctx):
                              'lookup:ok', 'grid:pack-error', 'status:Exhausted', 'status:RuntimeError']
     cases = corpus_cases()
     rng = ctx.rng.fork('sim')
-    cases += [gen_case(rng) for _ in range(400 if quick else 6000)]
-    cases += grid_cases(ctx.rng.fork('grid'), 1500 if quick else 40000)
-    if not quick:
-        cases += exhaustive_cases(7, (1, 2, 3))
-        ctx.extra['exhaustive_small_scope'] = ('every outcome mask of length <= 7 x rep_max 1..3 x 3 stop rules x 4 '
-                                               'grids (the seeded part of the run is not exhaustive)')
+    cases += [gen_case(rng) for _ in range(1500 if quick else 15000)]
+    cases += grid_cases(ctx.rng.fork('grid'), 4000 if quick else 60000)
+    if quick:
+        cases += exhaustive_cases(4, (1, 2))
+    else:
+        cases += exhaustive_cases(9, (1, 2, 3, 4), shape_bits=5)
+        ctx.extra['exhaustive_small_scope'] = (
+            'every outcome mask of length <= 9 x rep_max 1..4 x 3 stop rules x 4 grids; every grid shape with '
+            '0-3 parameters of lengths 1-3 x rep_max 1..3 x 2 stop rules x every mask of length <= 5 '
+            '(the seeded part of the run is not exhaustive)')
     try:
         run_cases(ctx, cases)
     except core.Infra as e:
